@@ -33,6 +33,8 @@ def write_project(sb, rng):
     add("src-gen/big.rs", big)
     add("src-gen/ok.rs", small)
     add("src2/other.rs", rng.choice([small, big]))
+    add("src/util/deep/more/z.rs", small)      # directories two and three levels below src/util (relative depth rules)
+    add("tmpwork/w.rs", small)                  # a directory a global name list can forbid, also when it is the scan root
     for rel, body in files.items():
         sb.write(rel, body)
     return files
@@ -66,7 +68,14 @@ def make_config(rng, anchored):
         # a rule with its own warn point: files of 12-16 lines under src/util are WARNED under every spelling
         t += ["[[content.rules]]", "pattern = %s" % json.dumps(pat("src/util/**")), "max_lines = 100", "warn_at = 5",
               "[[content.rules]]", "pattern = %s" % json.dumps(pat("tests/**")), "max_lines = 2"]
+    fam["reldepth"] = rng.random() < 0.5
+    fam["deny_dirs"] = rng.random() < 0.5
     t += ["[structure]", "max_files = 20"]
+    if fam["deny_dirs"]:
+        t.append('deny_dirs = ["tmp*"]')
+    if fam["reldepth"]:
+        # depth measured from the scope's fixed prefix (src): src/util/deep is 2 below it under EVERY spelling
+        t += ["[[structure.rules]]", "scope = %s" % json.dumps(pat("src/**")), "max_depth = 1", "relative_depth = true"]
     if fam["count_exclude"]:
         t.append("count_exclude = [%s]" % json.dumps(pat("src/d.rs")))
     if fam["structure_limit"]:
@@ -192,6 +201,15 @@ def run(ctx):
                 if d:
                     fails.append(("roots %s: paths below the roots differ from the whole-project run" % roots, cfg, {"diff": d[:6]}))
                 hist["multi_root"] = hist.get("multi_root", 0) + 1
+            # a second sub-directory root, one that the global name list may forbid: it is judged like any other entry
+            for style in ("plain", "dot", "abs", "slash"):
+                root = {"plain": "tmpwork", "dot": "./tmpwork", "abs": os.path.join(sb.proj, "tmpwork"), "slash": "tmpwork/"}[style]
+                rc, res = run_check(sb, exe, None, roots=[root])
+                evals += 1
+                d = [(k, base.get(k), res.get(k)) for k in sorted(set(base) | set(res), key=str)
+                     if isinstance(k, tuple) and (k[0] == "tmpwork" or k[0].startswith("tmpwork/")) and base.get(k) != res.get(k)]
+                if d:
+                    fails.append(("root %s: paths below it differ from the whole-project run" % root, cfg, {"diff": d[:6]}))
             # baseline written under one spelling, honoured under the others
             wsp = ctx.rng.choice(SPELLINGS)
             bl = os.path.join(sb.base, "baseline.json")
